@@ -18,11 +18,11 @@ PICK = {
     "C12": r"^(if_CodeELSECASE|if_CodeCASE|if_CodeENDIF|if_CodeENDCASE|if_CodeIFB|if_RestoreIFs|ifs_other)$",
     "C10": r"^(pc_CodeALIGN_1|pc_CodeALIGN_2|pc_CodeDEPHASE|pc_SetNSeg)$",
     "C09": r"^(mot_Enter.*|ieee_Double_2_ieee2|ieee_Double_2_ieee10)$",
-    "C07": r"^(tu_SkipRecord|tu_ReadRecordHeader|tu_FilterOK|tu_CMD_FilterList|tu_ReadRelocInfo|pl_ProcessSingle_data_g0|pl_ProcessSingle_data_g1|pl_ProcessSingle_reloc_truncated)$",
+    "C07": r"^(tu_SkipRecord|tu_ReadRecordHeader|tu_ReadRecordHeader_trunc|tu_FilterOK|tu_CMD_FilterList|tu_ReadRelocInfo|pl_ProcessSingle_data_g0|pl_ProcessSingle_data_g1|pl_ProcessSingle_reloc_truncated)$",
     "C04": r"^(cf_WriteBytes_fit_new_g2|cf_WriteBytes_overflow_g2|cf_NewRecord_full|cf_CloseFile|as_WriteCode)$",
     "C02": r"^(err_WrXErrorPos|err_CodeENDEXPECT)$",
     "C13": r"^(sym_SymbolAdder|sym_FindNode|sym_ExpandStrSymbol)$",
-    "C11": r"^(rep_IRP_step|rep_IRP_Cleanup_twice|rep_IRPN_count)$",
+    "C11": r"^(rep_IRP_step|rep_IRP_Cleanup_twice|rep_IRPN_count|sub_ChkNames)$",
     "C05": r"^(pb_ProcessFile_data_g2|pb_MeasureFile|pb_OpenTarget_g1_ALL)$",
     "C14": r"^(i4004_DecodeOneRReg|i4004_DecodeJCN)$",
 }
